@@ -92,6 +92,20 @@ def cubes(ctx, lib):
     _run(ctx, "cubes", ctx.cfg, fn)
 
 
+def nogood_primitives(ctx, lib):
+    """the nogood store as the learner uses it (default Equiv mode): primitive tables, conflict test, final scan, closure exits, add_ng (incl. the empty nogood).
+    A spurious conflict prunes a consistent branch of the search (models are lost), an unsound conclusion forces a wrong value."""
+    from rules import C18
+
+    def fn(c):
+        C18.T_prim(c, lib)
+        C18.T_subsume(c, lib)
+        C18.T_conflict(c, lib)
+        C18.P_final(c, lib)
+        C18.closure_exits(c, lib)
+    _run(ctx, "nogood_primitives", ctx.cfg, fn)
+
+
 def semantics_base(ctx, lib):
     """everything an answer computed from a parsed ADF on any back-end rests on"""
     kernel_build(ctx, lib)
